@@ -15,6 +15,22 @@ Per generated qiskit circuit and both values of allow_post_selection:
            outputs outside the qubit subspace have amplitude 0; a circuit of supported 1- and
            2-qubit gates is never refused.
 A failing circuit is shrunk (ddmin over instructions) before it is reported.
+
+Two further dimensions (round 4):
+  * the OPTION `allow_post_selection` is supplied in every truthy / falsy form a client can hand over (bool,
+    int 0/1/2, float, numpy bools — constants and results of comparisons —, numpy ints, 0-d arrays, None;
+    keyword or positional).  The model is asked with the option's truth value; the oracle is evaluated with
+    the circuit and the rules the call RETURNED (post-selected gates inside with `None` rules leak amplitude
+    out of the qubit subspace); a value that is refused (TypeError / ValueError) while the plain bool is
+    accepted is tolerated and counted (oracle-only).
+  * DECORATED instructions: every way qiskit turns a supported gate name into another operation — open
+    controls (`ctrl_state`, all values, int and str), `.inverse()`, `.power(k)`, `.control(m)` (plain and
+    annotated), labels, parameter forms (unbound Parameter, bound expression, numpy scalars, ints),
+    measure / reset / barrier / delay / id / GlobalPhaseGate / if_test, the circuit's global phase, and
+    library gates whose names are near misses of supported ones.  The instruction list the converter reads
+    (operation.name, qubits) goes to the model as it is; the oracle demands: refused, or the amplitude
+    oracle holds against qiskit's Operator; a converted circuit for which qiskit defines no unitary is a
+    violation.
 """
 
 from __future__ import annotations
@@ -42,7 +58,10 @@ ASSUMPTIONS = [
     "post-selection mode; one fewer on 5 qubits) because every heralded gate adds two photons to the "
     "simulation; theorems are unbounded",
     "rotation angles are floats seen only by the implementation and by qiskit; no decision depends on them",
-    "instructions with repeated qubits, classical bits or parameters that are not numbers are outside the model",
+    "instructions with repeated qubits, classical bits or parameters that are not numbers are outside the model "
+    "(circuits with an unbound Parameter are checked by the oracle only)",
+    "allow_post_selection reaches the model as its truth value; non-bool forms of the option are an "
+    "implementation-side dimension",
 ]
 
 TOL = 1e-9
@@ -102,6 +121,275 @@ def gen_circuit(rng, nmax: int, lmax: int, her_max: int, malformed: bool) -> dic
     return {"n": n, "aps": aps, "instrs": instrs}
 
 
+# ------------------------------------------------------------------ the option allow_post_selection
+
+APS_FORMS = ["bool", "int", "np_bool", "np_cmp", "np_int", "float", "int2", "np_0d", "none"]
+
+
+def aps_value(case: dict):
+    """the object handed to the converter as allow_post_selection: the truth value case["aps"] in the
+    form case["aps_as"] (default: the Python bool itself)"""
+    b = bool(case["aps"])
+    form = case.get("aps_as", "bool")
+    if form == "bool":
+        return b
+    if form == "int":
+        return 1 if b else 0
+    if form == "np_bool":
+        return np.True_ if b else np.False_
+    if form == "np_cmp":  # the result of a comparison on numpy data
+        k = np.asarray([len(q) for _, q, _ in case["instrs"]] + [0])
+        return (k.max() >= 0) if b else (k.max() < 0)
+    if form == "np_int":
+        return np.int64(1 if b else 0)
+    if form == "float":
+        return 1.0 if b else 0.0
+    if form == "int2":  # truthy, but not equal to True
+        return 2 if b else 0
+    if form == "np_0d":
+        return np.asarray(b)
+    if form == "none":
+        return True if b else None
+    raise MachineryFault(f"unknown form of allow_post_selection: {form}")
+
+
+# ------------------------------------------------------------------ decorated instructions
+
+# library gates whose names are near misses of supported names / share a prefix with them
+NEAR_MISS = {  # name -> (number of qubits, number of parameters)
+    "sxdg": (1, 0), "id": (1, 0), "u": (1, 3), "r": (1, 2), "cs": (2, 0), "csdg": (2, 0), "csx": (2, 0),
+    "ch": (2, 0), "cy": (2, 0), "cp": (2, 1), "crx": (2, 1), "cry": (2, 1), "crz": (2, 1), "rxx": (2, 1),
+    "ryy": (2, 1), "rzz": (2, 1), "rzx": (2, 1), "dcx": (2, 0), "ecr": (2, 0), "iswap": (2, 0),
+    "cswap": (3, 0), "rccx": (3, 0),
+}
+ONE_Q = SINGLE + ROT
+MULTI = {"cx": 2, "cz": 2, "swap": 2, "ccx": 3, "ccz": 3}
+OPS = ["measure", "reset", "barrier", "barrier_one", "delay", "id", "global_phase", "if_test"]
+PARAM_FORMS = ["unbound", "bound_expr", "np_float32", "np_float64", "int"]
+
+
+def _gate_obj(name: str, theta: float, label=None):
+    from qiskit.circuit import library as lib
+
+    cls = {"h": lib.HGate, "x": lib.XGate, "y": lib.YGate, "z": lib.ZGate, "s": lib.SGate, "sdg": lib.SdgGate,
+           "t": lib.TGate, "tdg": lib.TdgGate, "sx": lib.SXGate, "rx": lib.RXGate, "ry": lib.RYGate,
+           "rz": lib.RZGate, "p": lib.PhaseGate, "cx": lib.CXGate, "cz": lib.CZGate, "swap": lib.SwapGate,
+           "ccx": lib.CCXGate, "ccz": lib.CCZGate}[name]
+    kw = {} if label is None else {"label": label}
+    return cls(theta, **kw) if name in ROT else cls(**kw)
+
+
+def apply_deco(qc, name: str, qs: list, d: dict) -> None:
+    """append the decorated instruction described by d (JSON-able) to qc"""
+    kind = d["deco"]
+    theta = d.get("theta", 0.37)
+    if kind == "ctrl_state":  # cx / cz / ccx / ccz / cswap / ch / cy with an explicit control state
+        getattr(qc, name)(*qs, ctrl_state=d["v"])
+    elif kind in ("inverse", "power", "control", "label"):
+        g = _gate_obj(name, theta, label="lbl" if kind == "label" else None)
+        if kind == "inverse":
+            g = g.inverse(annotated=bool(d.get("annotated")))
+        elif kind == "power":
+            g = g.power(d["k"], annotated=bool(d.get("annotated")))
+        elif kind == "control":
+            g = g.control(d.get("m", 1), ctrl_state=d.get("v"), annotated=d.get("annotated"))
+        qc.append(g, qs)
+    elif kind == "param":
+        from qiskit.circuit import Parameter
+
+        form = d["form"]
+        if form == "unbound":
+            par = Parameter("a")
+        elif form == "bound_expr":
+            a = Parameter("a")
+            par = (2 * a + 0.25).bind({a: (theta - 0.25) / 2})
+        elif form == "np_float32":
+            par = np.float32(theta)
+        elif form == "np_float64":
+            par = np.float64(theta)
+        else:
+            par = int(round(theta))
+        getattr(qc, name)(par, *qs)
+    elif kind == "near":
+        getattr(qc, name)(*([0.3, 0.2, 0.1][:NEAR_MISS[name][1]]), *qs)
+    elif kind == "op":
+        if name == "measure":
+            qc.measure(qs[0], 0)
+        elif name == "reset":
+            qc.reset(qs[0])
+        elif name in ("barrier", "barrier_one"):
+            qc.barrier(*qs)
+        elif name == "delay":
+            qc.delay(10, qs[0])
+        elif name == "id":
+            qc.id(qs[0])
+        elif name == "global_phase":
+            from qiskit.circuit.library import GlobalPhaseGate
+
+            qc.append(GlobalPhaseGate(theta), [])
+        elif name == "if_test":
+            with qc.if_test((qc.clbits[0], 1)):
+                getattr(qc, d.get("body", "x"))(*qs)
+        else:
+            raise MachineryFault(f"unknown op {name}")
+    else:
+        raise MachineryFault(f"unknown decoration {kind}")
+
+
+def gen_deco(rng, n: int, aps: bool) -> list:
+    """one decorated instruction on an n-qubit circuit"""
+    r = rng.random()
+    if r < 0.3 and n >= 2:  # explicit control state
+        names = ["cx", "cz", "ch", "cy"] + (["ccx", "ccz", "cswap"] if n >= 3 else [])
+        name = rng.choice(names)
+        k = 3 if name in ("ccx", "ccz", "cswap") else 2
+        if k == 3 and rng.random() < 0.7:
+            b = rng.randint(0, n - 3)
+            qs = [b, b + 1, b + 2]
+            rng.shuffle(qs)
+        else:
+            qs = rng.sample(range(n), k)
+        nc = 2 if name in ("ccx", "ccz") else 1
+        v = rng.randrange(2 ** nc)
+        if rng.random() < 0.3:
+            v = format(v, f"0{nc}b")
+        return [name, qs, {"deco": "ctrl_state", "v": v}]
+    if r < 0.45:
+        cand = [g for g in ONE_Q + list(MULTI) if MULTI.get(g, 1) <= n]
+        name = rng.choice(cand)
+        d = {"deco": "inverse", "annotated": rng.random() < 0.3}
+        if name in ROT:
+            d["theta"] = round(rng.uniform(-3, 3), 3)
+        return [name, rng.sample(range(n), MULTI.get(name, 1)), d]
+    if r < 0.6:
+        cand = [g for g in ONE_Q + list(MULTI) if MULTI.get(g, 1) <= n]
+        name = rng.choice(cand)
+        d = {"deco": "power", "k": rng.choice([2, -1, 0.5, 0, 1, 3, -2, 1.5]), "annotated": rng.random() < 0.25}
+        if name in ROT:
+            d["theta"] = round(rng.uniform(-3, 3), 3)
+        return [name, rng.sample(range(n), MULTI.get(name, 1)), d]
+    if r < 0.75 and n >= 2:
+        m = 2 if (n >= 3 and rng.random() < 0.3) else 1
+        cand = [g for g in ONE_Q + ["cx", "cz", "swap"] if MULTI.get(g, 1) + m <= n and (m == 1 or g in ONE_Q)]
+        name = rng.choice(["x", "z"]) if rng.random() < 0.4 else rng.choice(cand)
+        d = {"deco": "control", "m": m}
+        if rng.random() < 0.5:
+            d["v"] = rng.randrange(2 ** m)
+        if rng.random() < 0.25:
+            d["annotated"] = True
+        if name in ROT:
+            d["theta"] = round(rng.uniform(-3, 3), 3)
+        k = MULTI.get(name, 1) + m
+        if k == 3 and rng.random() < 0.7:
+            b = rng.randint(0, n - 3)
+            qs = [b, b + 1, b + 2]
+            rng.shuffle(qs)
+        else:
+            qs = rng.sample(range(n), k)
+        return [name, qs, d]
+    if r < 0.85:
+        return [rng.choice(ROT), [rng.randrange(n)],
+                {"deco": "param", "form": rng.choice(PARAM_FORMS), "theta": round(rng.uniform(-3, 3), 3)}]
+    if r < 0.93:
+        name = rng.choice(OPS)
+        qs = list(range(n)) if name == "barrier" else ([] if name == "global_phase" else [rng.randrange(n)])
+        d = {"deco": "op", "theta": round(rng.uniform(-3, 3), 3)}
+        if name == "if_test":
+            d["body"] = rng.choice(["x", "h", "z"])
+        return [name, qs, d]
+    if r < 0.96:
+        name = rng.choice([g for g in ONE_Q + list(MULTI) if MULTI.get(g, 1) <= n])
+        d = {"deco": "label"}
+        if name in ROT:
+            d["theta"] = round(rng.uniform(-3, 3), 3)
+        return [name, rng.sample(range(n), MULTI.get(name, 1)), d]
+    cand = [g for g, (k, _) in NEAR_MISS.items() if k <= n]
+    name = rng.choice(cand)
+    return [name, rng.sample(range(n), NEAR_MISS[name][0]), {"deco": "near"}]
+
+
+def directed_deco_cases() -> list[dict]:
+    """the corpus of decorated instructions: every open-control state of every controlled gate the converter
+    knows (and of the controlled swap), every supported gate inverted / raised to a power / controlled /
+    labelled, every parameter form, every non-unitary or structural instruction, the near-miss names"""
+    out = []
+
+    def add(n, aps, instrs, **kw):
+        out.append(dict({"n": n, "aps": aps, "instrs": instrs}, **kw))
+
+    for aps in (True, False):
+        for name, qs in (("cx", [0, 1]), ("cx", [1, 0]), ("cz", [0, 1]), ("cx", [0, 2])):
+            for v in (0, 1, "0", "1"):
+                add(max(qs) + 1, aps, [[name, qs, {"deco": "ctrl_state", "v": v}]])
+        # in context: the open-controlled gate after a superposition on its control, before a plain gate
+        add(2, aps, [["h", [0], None], ["cx", [0, 1], {"deco": "ctrl_state", "v": 0}], ["cz", [0, 1], None]])
+        add(2, aps, [["h", [1], None], ["cz", [1, 0], {"deco": "ctrl_state", "v": 0}], ["h", [0], None]])
+        for v in (0, 1):
+            add(3, aps, [["cswap", [0, 1, 2], {"deco": "ctrl_state", "v": v}]])
+            add(2, aps, [["ch", [0, 1], {"deco": "ctrl_state", "v": v}]])
+    for name in ("ccx", "ccz"):
+        for qs in ([0, 1, 2], [2, 0, 1]):
+            for v in (0, 1, 2, 3, "01", "11"):
+                add(3, True, [[name, qs, {"deco": "ctrl_state", "v": v}]])
+        add(3, False, [[name, [0, 1, 2], {"deco": "ctrl_state", "v": 1}]])
+    for name in ONE_Q + list(MULTI):
+        k = MULTI.get(name, 1)
+        aps = k == 3 or name in ("h", "s", "cx")
+        for ann in (False, True):
+            add(k, aps, [[name, list(range(k)), {"deco": "inverse", "annotated": ann, "theta": 0.61}]])
+        for p in ((2, -1, 0.5, 0) if k == 1 else (2, -1)):
+            add(k, aps, [[name, list(range(k)), {"deco": "power", "k": p, "theta": 0.61}]])
+        add(k, aps, [[name, list(range(k)), {"deco": "power", "k": 2, "annotated": True, "theta": 0.61}]])
+        add(k, aps, [[name, list(range(k)), {"deco": "label", "theta": 0.61}]])
+        if k <= 2:
+            for d in ({}, {"v": 0}, {"annotated": True}):
+                add(k + 1, True, [[name, list(range(k + 1)), dict({"deco": "control", "m": 1, "theta": 0.61}, **d)]])
+        if name in ("x", "z", "h", "p"):
+            for v in (None, 0, 1, 2, 3):
+                d = {"deco": "control", "m": 2, "theta": 0.61}
+                if v is not None:
+                    d["v"] = v
+                add(3, True, [[name, [0, 1, 2], d]])
+    for name in ROT:
+        for form in PARAM_FORMS:
+            add(1, name == "rx", [[name, [0], {"deco": "param", "form": form, "theta": 1.3}]])
+            add(2, True, [["h", [0], None], ["cx", [0, 1], None],
+                          [name, [1], {"deco": "param", "form": form, "theta": -2.0}]])
+    for name in OPS:
+        qs = [0, 1] if name == "barrier" else ([] if name == "global_phase" else [0])
+        for aps in (True, False):
+            add(2, aps, [["h", [0], None], [name, qs, {"deco": "op", "theta": 0.9, "body": "x"}], ["cx", [0, 1], None]])
+            add(2, aps, [[name, qs, {"deco": "op", "theta": 0.9, "body": "x"}]])
+    for aps in (True, False):
+        add(2, aps, [["h", [0], None], ["cx", [0, 1], None], ["rz", [1], 0.4]], global_phase=0.7)
+        add(2, aps, [["h", [0], None], ["cz", [1, 0], None]], global_phase=-math.pi)
+    for name, (k, _) in NEAR_MISS.items():
+        add(k, k == 3 or name in ("cs", "sxdg"), [[name, list(range(k)), {"deco": "near"}]])
+    return out
+
+
+def directed_aps_cases() -> list[dict]:
+    """every form of the option on circuits with post-selectable gates (2- and 3-qubit), on a circuit whose
+    entangling gates cannot all be post-selected, and on circuits without entangling gates"""
+    out = []
+    circuits = [
+        (2, [["cx", [0, 1], None]]),
+        (3, [["h", [0], None], ["cx", [0, 1], None], ["ry", [2], 0.7], ["cz", [1, 2], None]]),
+        (2, [["cx", [0, 1], None], ["h", [0], None], ["cz", [1, 0], None]]),
+        (3, [["ccx", [0, 1, 2], None]]),
+        (3, [["h", [2], None], ["ccz", [2, 0, 1], None]]),
+        (2, [["h", [0], None], ["swap", [0, 1], None]]),
+    ]
+    for form in APS_FORMS[1:]:
+        for ci, (n, ins) in enumerate(circuits):
+            for aps in (True, False):
+                if not aps and ci in (1, 4):
+                    continue
+                out.append({"n": n, "aps": aps, "aps_as": form, "instrs": [list(i) for i in ins],
+                            "call": "pos" if (ci + len(form)) % 2 else "kw"})
+    return out
+
+
 def directed_cases() -> list[dict]:
     """small structured circuits around the post-selection analysis (multi-qubit gate followed by
     gates on subsets of its qubits), both modes"""
@@ -132,8 +420,16 @@ def build_qc(case: dict):
         qc = QuantumCircuit(*[QuantumRegister(k, f"r{j}") for j, k in enumerate(regs)])
     else:
         qc = QuantumCircuit(case["n"])
+    if any(name in ("measure", "if_test") for name, _, th in case["instrs"] if isinstance(th, dict)):
+        from qiskit import ClassicalRegister
+
+        qc.add_register(ClassicalRegister(1, "c"))
+    if case.get("global_phase") is not None:
+        qc.global_phase = case["global_phase"]
     for name, qs, th in case["instrs"]:
-        if name in ROT or name == "rzz":
+        if isinstance(th, dict):
+            apply_deco(qc, name, qs, th)
+        elif name in ROT or name == "rzz":
             getattr(qc, name)(0.37 if th is None else th, *qs)
         elif name == "u":
             qc.u(0.1, 0.2, 0.3, *qs)
@@ -154,11 +450,14 @@ def instr_view(qc) -> list:
 # ------------------------------------------------------------------ implementation side
 
 
-def convert_impl(qc, aps: bool):
+def convert_impl(qc, aps, call: str | None = None):
     from lightworks import qubit
 
     try:
-        circ, ps = qubit.qiskit_converter(qc, allow_post_selection=aps)
+        if call == "pos":
+            circ, ps = qubit.qiskit_converter(qc, aps)
+        else:
+            circ, ps = qubit.qiskit_converter(qc, allow_post_selection=aps)
         return "ok", circ, ps
     except Exception as e:  # noqa: BLE001
         return exc_class(e), None, None
@@ -185,19 +484,36 @@ def amplitude_matrix(circ, ps, n: int):
     return a, leak
 
 
-def oracle(case: dict, qc=None) -> list[str]:
+def reference_unitary(qc):
+    """qiskit's Operator of the circuit in our basis order, or (None, reason) when qiskit defines none
+    (measurement, reset, classical control, unbound parameters ...)"""
+    try:
+        return qg.qiskit_matrix(qc), None
+    except Exception as e:  # noqa: BLE001
+        return None, exc_class(e)
+
+
+def oracle(case: dict, qc=None, info: dict | None = None) -> list[str]:
     """the property's clauses on the implementation alone"""
+    info = {} if info is None else info
     qc = qc or build_qc(case)
-    res, circ, ps = convert_impl(qc, case["aps"])
+    res, circ, ps = convert_impl(qc, aps_value(case), case.get("call"))
+    info["res"] = res
     names = [i[0] for i in instr_view(qc)]
+    v, no_unitary = reference_unitary(qc)
     if res != "ok":
-        if all(g in SINGLE + ROT + ["cx", "cz", "swap"] for g in names):
+        if case.get("aps_as", "bool") != "bool" and res in ("TypeError", "ValueError") \
+                and convert_impl(qc, bool(case["aps"]))[0] == "ok":
+            info["aps_value_refused"] = True  # the VALUE of the option is refused, not the circuit
+            return []
+        if v is not None and all(g in SINGLE + ROT + ["cx", "cz", "swap"] for g in names):
             return [f"oracle: a circuit of supported one- and two-qubit gates is refused ({res})"]
         return []
+    if v is None:
+        return [f"oracle: a circuit for which qiskit defines no unitary ({no_unitary}) is converted instead of refused"]
     if circ.input_modes != 2 * case["n"]:
         return [f"oracle: converted circuit has {circ.input_modes} input modes for {case['n']} qubits"]
     a, leak = amplitude_matrix(circ, ps, case["n"])
-    v = qg.qiskit_matrix(qc)
     k, resid = qg.fit_scalar(a, v)
     probs = []
     if resid > TOL:
@@ -241,14 +557,31 @@ def build_from_plan(case: dict, plan: list):
     return c
 
 
-def run_case(ctx: Ctx, case: dict, with_oracle: bool = True) -> list[str]:
+def outside_model(qc) -> bool:
+    from qiskit.circuit import ParameterExpression
+
+    return any(isinstance(p, ParameterExpression) for inst in qc.data for p in inst.operation.params)
+
+
+def run_case(ctx: Ctx, case: dict, with_oracle: bool = True, info: dict | None = None) -> list[str]:
     probs: list[str] = []
+    info = {} if info is None else info
     qc = build_qc(case)
     view = instr_view(qc)
-    res, circ, ps = convert_impl(qc, case["aps"])
-    m = ctx.model.call({"op": "qconv", "n": case["n"], "aps": case["aps"], "instrs": view})
+    res, circ, ps = convert_impl(qc, aps_value(case), case.get("call"))
+    info["res"] = res
     if with_oracle:
-        probs += oracle(case, qc)
+        probs += oracle(case, qc, info)
+    if outside_model(qc):
+        # an unbound Parameter: no decision of the model depends on angles, the implementation cannot
+        # evaluate the gate; the refusal-or-correct clause is checked by the oracle alone
+        ctx.count("unbound_parameter:oracle-only")
+        return probs
+    if res != "ok" and case.get("aps_as", "bool") != "bool" and res in ("TypeError", "ValueError") \
+            and convert_impl(qc, bool(case["aps"]))[0] == "ok":
+        ctx.count("aps_value_refused:oracle-only")
+        return probs
+    m = ctx.model.call({"op": "qconv", "n": case["n"], "aps": bool(case["aps"]), "instrs": view})
     if m["result"] != res:
         probs.append(f"corr: conversion outcome impl={res} model={m['result']}")
         return probs
@@ -279,27 +612,49 @@ def run_case(ctx: Ctx, case: dict, with_oracle: bool = True) -> list[str]:
 
 
 def shrink(ctx: Ctx, case: dict, pred) -> dict:
+    # the other dimensions of the case (registers, form of the option, call style, global phase) are kept
+    # while the instruction list is minimised, then dropped one by one where the failure does not need them
+    base = {k: v for k, v in case.items() if k != "instrs"}
+
     def fails(sub):
-        return bool(pred({"n": case["n"], "aps": case["aps"], "instrs": sub}))
+        return bool(pred(dict(base, instrs=sub)))
 
     small = ddmin(case["instrs"], fails) if len(case["instrs"]) > 1 else case["instrs"]
-    out = {"n": case["n"], "aps": case["aps"], "instrs": small}
+    out = dict(base, instrs=small)
+
+    def attempt(cand):
+        try:
+            return bool(pred(cand))
+        except MachineryFault:
+            raise
+        except Exception:  # noqa: BLE001
+            return False
+
+    for key in ("regs", "aps_as", "call", "global_phase"):
+        if key in out:
+            cand = {k: v for k, v in out.items() if k != key}
+            if attempt(cand):
+                out = cand
     # drop unused top qubits
     used = [q for _, qs, _ in small for q in qs]
     n_min = (max(used) + 1) if used else 1
-    if n_min < out["n"]:
+    if n_min < out["n"] and "regs" not in out:
         cand = dict(out, n=n_min)
-        try:
-            if pred(cand):
-                out = cand
-        except Exception:  # noqa: BLE001
-            pass
+        if attempt(cand):
+            out = cand
     return out
 
 
 def describe(case: dict) -> str:
-    return "; ".join(f"{g}({','.join(map(str, q))})" for g, q, _ in case["instrs"]) + \
-        f"  [{case['n']} qubits, allow_post_selection={case['aps']}]"
+    def one(g, q, th):
+        d = ""
+        if isinstance(th, dict):
+            d = "{" + ",".join(f"{k}={v}" for k, v in th.items() if k != "theta" or g in ROT) + "}"
+        return f"{g}{d}({','.join(map(str, q))})"
+
+    extra = "".join(f", {k}={case[k]}" for k in ("regs", "global_phase", "call") if case.get(k) is not None)
+    return "; ".join(one(g, q, th) for g, q, th in case["instrs"]) + \
+        f"  [{case['n']} qubits, allow_post_selection={aps_value(case)!r}{extra}]"
 
 
 _SEEN_SHAPES: set = set()
@@ -312,13 +667,17 @@ def report(ctx: Ctx, case: dict, probs: list[str]) -> None:
         sp = oracle(small) or orc
         names = sorted({g for g, _, _ in small["instrs"]})
         # one report per distinct shape of the shrunk circuit (arity sequence, mode, clause)
-        shape = (tuple(len(q) for _, q, _ in small["instrs"]), small["aps"], sp[0].split(":")[1].strip()[:40])
+        decos = sorted({th["deco"] for _, _, th in small["instrs"] if isinstance(th, dict)})
+        shape = (tuple(len(q) for _, q, _ in small["instrs"]), small["aps"], sp[0].split(":")[1].strip()[:40],
+                 tuple(decos), small.get("aps_as", "bool") == "bool")
         if shape in _SEEN_SHAPES:
             ctx.count("further_failing_circuits_of_a_reported_shape")
             return
         _SEEN_SHAPES.add(shape)
         ctx.violation(f"{sp[0]} :: {describe(small)}", {"case": small, "problems": sp, "original": case},
-                      sig={"kind": sp[0].split(":")[1].strip()[:40], "gates": names, "aps": small["aps"]})
+                      sig={"kind": sp[0].split(":")[1].strip()[:40], "gates": names, "aps": small["aps"],
+                           **({"decorations": decos} if decos else {}),
+                           **({"aps_as": small["aps_as"]} if small.get("aps_as", "bool") != "bool" else {})})
     else:
         small = shrink(ctx, case, lambda c: run_case(ctx, c, with_oracle=False))
         sp = run_case(ctx, small, with_oracle=False) or probs
@@ -349,7 +708,10 @@ def run(ctx: Ctx) -> None:
                 "allow_post_selection) + directed circuits around the post-selection analysis + ~15% circuits with "
                 "an unsupported / unplaceable instruction; non-trivial = converted circuit with >= 1 multi-qubit "
                 "gate whose full amplitude matrix was compared with qiskit's Operator; distinct = distinct "
-                "(instruction list, mode)")
+                "(instruction list, mode); + the option allow_post_selection in 9 truthy / falsy forms (directed on 6 "
+                "circuits, random on half of the random circuits, keyword / positional) + decorated instructions "
+                "(corpus of open controls, inverse, power, control, labels, parameter forms, non-unitary and "
+                "structural instructions, near-miss names; random circuits with 1-2 decorated instructions)")
     self_test(ctx)
     rng = ctx.rng
     cases = [dict(c, _kind="directed") for c in directed_cases()]
@@ -359,6 +721,17 @@ def run(ctx: Ctx) -> None:
                       "instrs": [["x", [2], None], ["h", [3], None], ["cx", [2, 3], None]]})
         cases.append({"n": 3, "aps": aps, "regs": [1, 1, 1], "_kind": "directed",
                       "instrs": [["h", [1], None], ["cz", [1, 2], None], ["s", [2], None]]})
+    cases += [dict(c, _kind="directed_option") for c in directed_aps_cases()]
+    cases += [dict(c, _kind="directed_decorated") for c in directed_deco_cases()]
+    for _ in range(ctx.n(60, 600)):
+        # random circuits (shorter, one heralded gate fewer) with one or two decorated instructions inserted
+        c = gen_circuit(rng, ctx.n(4, 5), 5, ctx.n(2, 3) - 1, False)
+        for _k in range(rng.choice([1, 1, 2])):
+            c["instrs"].insert(rng.randint(0, len(c["instrs"])), gen_deco(rng, c["n"], c["aps"]))
+        if rng.random() < 0.15:
+            c["global_phase"] = round(rng.uniform(-3, 3), 3)
+        c["_kind"] = "decorated"
+        cases.append(c)
     for _ in range(ctx.n(110, 1500)):
         if ctx.out_of_time():
             break
@@ -369,16 +742,32 @@ def run(ctx: Ctx) -> None:
             # the same instructions on a circuit built from several registers
             cuts = sorted(rng.sample(range(1, c["n"]), rng.randint(1, min(2, c["n"] - 1))))
             c["regs"] = [b - a for a, b in zip([0, *cuts], [*cuts, c["n"]])]
+        if rng.random() < 0.5:
+            c["aps_as"] = rng.choice(APS_FORMS[1:])
+            if rng.random() < 0.3:
+                c["call"] = "pos"
         cases.append(c)
     for i, case in enumerate(cases):
+        if ctx.out_of_time():
+            break
         kind = case.pop("_kind")
-        probs = run_case(ctx, case)
+        info: dict = {}
+        probs = run_case(ctx, case, info=info)
         ctx.count("stream:" + kind)
+        ctx.count("option_form:" + case.get("aps_as", "bool") + (":truthy" if case["aps"] else ":falsy"))
+        ctx.count("call:" + case.get("call", "kw"))
+        for _g, _q, th in case["instrs"]:
+            if isinstance(th, dict):
+                ctx.count("decoration:" + th["deco"] + (":" + _g if th["deco"] in ("op", "ctrl_state") else "")
+                          + (":converted" if info.get("res") == "ok" else ":refused"))
         ctx.count("mode:" + ("post_selection" if case["aps"] else "heralded_only"))
         ctx.count("registers:" + ("several" if case.get("regs") else "one"))
         multi = sum(1 for g, qs, _ in case["instrs"] if len(qs) >= 2)
         key = json.dumps(case, sort_keys=True)
-        ctx.case(key, multi >= 1 and kind != "malformed", sample=case if i in (3, 40, 60) else None)
+        nontrivial = multi >= 1 and kind != "malformed"
+        if "decorated" in kind:  # non-trivial: converted with >= 1 multi-qubit gate, or a decorated multi-qubit refused
+            nontrivial = multi >= 1
+        ctx.case(key, nontrivial, sample=case if i in (3, 40, 60) else None)
         if probs:
             ctx.count("cases_with_problems")
             report(ctx, case, probs)
